@@ -4,7 +4,11 @@
    [dec_builtin] (C19/Model.v) mirror the three implementations; [dec_impl] picks the one the
    build uses.  Universe: int, string, pointers, slices, string-keyed maps, structs, interface{}
    holding nil / int64 / string; every theorem below quantifies over ALL types of that universe,
-   all destinations (no well-typedness is assumed), all stream items and all option vectors. *)
+   all destinations (no well-typedness is assumed), all stream items and all option vectors.
+   [merge], [dec_refl], [dec_fast], [dec_impl] are the instances dyn = false of merge_x / dec_*_x:
+   the decoder never unboxes a struct held BY VALUE in an interface{} (VDyn).  With dyn = true
+   (kInterface decodes into a copy of the held struct and stores it back) the same functions are
+   tied to the implementation by the correspondence and the merge oracle only. *)
 From Coq Require Import List NArith ZArith Arith Bool Lia.
 From Verif Require Import Base.Outcome Wire.Item C19.Spec C19.Model C19.Loops C19.Proofs
      C19.ProofsMerge C19.ProofsPaths C19.ProofsKeep C19.ProofsIdem C19.ProofsTop.
